@@ -1,12 +1,18 @@
 """C53 -- PipeTest reproduces the elastic thick-walled cylinder (Lame) solution.
 Proof part (Coq): the Lame closed form solves the pipe boundary value problem (oracle proved); shape functions
-(partition of unity, nodal interpolation, derivative consistency, affine geometry), Gauss rules (exactness degree),
-tangent consistency and patch test of the element model (engine H, hand-written Gallina model over an abstract scalar).
-Tie: the real element sources of /repo are compiled into driver.cxx and compared with the model run on Q
-(quadrature constants, shape functions, strains, inner forces, stiffness).
-Execution (labelled as such): the element routines (driver `fe`) and the real `mtest` binary on generated .ptest files
-against the proved oracle evaluated on Q, error decreasing under refinement at the element's order."""
-import math, os, re, shutil
+(partition of unity, nodal interpolation, derivative consistency, affine geometry), Gauss rules (exactness degree -- of the
+exact rules and of the constants READ FROM THE COMPILED CODE AT THIS RUN, generated file C53_gen.v), tangent consistency and
+patch test of one element; ASSEMBLY of the mesh for any number of elements (induction on the list of elements): assembled
+residual = Galerkin weak form by the element quadrature, assembled stiffness = tangent and symmetric for a symmetric
+tangent, patch test at mesh level with the exact Lame field of a uniform pressure (engine H, hand-written Gallina model over
+an abstract scalar).
+Tie: the real sources of /repo (the three element .cxx files and PipeTest.cxx) are compiled into driver.cxx and compared with
+the model run on Q: quadrature constants, shape functions, strains, inner forces, stiffness of one element, and the residual
+and stiffness assembled by the REAL PipeTest::computeStiffnessMatrixAndResidual.
+Execution (labelled as such): full elastic problems assembled by the real PipeTest (driver `fe`, our LU) and the real `mtest`
+binary on generated .ptest files against the proved oracle evaluated on Q; the convergence-rate study is in the thorough tier."""
+import hashlib, math, os, re, shutil
+from concurrent.futures import ThreadPoolExecutor
 from fractions import Fraction
 import vlib
 from vlib import guarded_main
@@ -14,13 +20,21 @@ from vlib import guarded_main
 ENAME = {1: "linear", 2: "quadratic", 3: "cubic"}
 PTNAME = {1: "Linear", 2: "Quadratic", 3: "Cubic"}
 ELEM = {1: "lin_elem", 2: "quad_elem", 3: "cub_elem"}
-MODEL = ["C53Spec.v", "C53Model.v"]
-LIBS = ["-lTFELMTest", "-lMFrontLogStream", "-lTFELMaterial", "-lTFELMath", "-lTFELUtilities", "-lTFELException"]
-TWOPI = 2 * 3.14159265358979323846
-NES = [1, 2, 4, 8, 16]
-# error at ne=16 relative to the scale of the solution (displacement, stress), per element order; generous
-BOUND_U = {1: 5e-3, 2: 2e-5, 3: 2e-6}
-BOUND_S = {1: 0.25, 2: 2e-2, 3: 1.5e-3}
+GEN = {1: "gen_lin_gps", 2: "gen_quad_gps", 3: "gen_cub_gps"}
+LIGHT = ["C53Num.v", "C53Model.v"]          # + the generated C53_gen.v: all the execution harness loads (no real numbers)
+LIBS = ["-lTFELMTest", "-lMFrontLogStream", "-lTFELMaterial", "-lTFELMathParser", "-lTFELMath", "-lTFELUtilities", "-lTFELException",
+        "-lTFELTests", "-lTFELSystem"]
+# PipeTest.cxx of the tree under test + the translation units whose symbols libTFELMTest.so does not export
+REPO_SRC = ["mtest/src/PipeTest.cxx", "mtest/src/PipeProfile.cxx", "mtest/src/PipeProfileHandler.cxx", "mtest/src/OxidationStatusEvolution.cxx",
+            "mtest/src/GenericSolver.cxx", "mtest/src/Solver.cxx"]
+PI = 3.14159265358979323846          # the literal of PipeTest.cxx / Pipe*Element.cxx
+TWOPI = 2 * PI
+# error relative to the scale of the solution (displacement, stress), per element order and number of elements: 2.5..3 times the
+# worst value measured on the family of problems generated below (radius ratio <= 2.5, nu 0.1..0.4, both axial loadings)
+BOUND_U = {1: {1: 0.8, 2: 0.35, 4: 0.1, 8: 0.03, 16: 7e-3}, 2: {1: 0.12, 2: 1.6e-2, 4: 1.5e-3, 8: 1e-4, 16: 2e-5},
+           3: {1: 1.2e-2, 2: 1.4e-3, 4: 1.4e-4, 8: 1.2e-5, 16: 2e-6}}
+BOUND_S = {1: {1: 2.4, 2: 2.1, 4: 1.3, 8: 0.7, 16: 0.4}, 2: {1: 1.0, 2: 0.4, 4: 0.15, 8: 5e-2, 16: 2e-2},
+           3: {1: 0.26, 2: 7e-2, 4: 1.6e-2, 8: 3e-3, 16: 1.5e-3}}
 FLOOR = 1e-10
 
 
@@ -33,28 +47,34 @@ def qlist(xs):
     return "[" + "; ".join(qlit(x) for x in xs) + "]"
 
 
-HEADER = ("From Coq Require Import ZArith QArith List.\nFrom C53 Require Import C53Spec C53Model.\nImport ListNotations.\n"
+HEADER = ("From Coq Require Import ZArith QArith List.\nFrom C53 Require Import C53Num C53Model C53_gen.\nImport ListNotations.\n"
           "Local Open Scope Q_scope.\n"
           "Definition outq (l : list Q) : list (Z * Z) := map (fun q => let r := Qred q in (Qnum r, Zpos (Qden r))) l.\n"
-          "Definition s3 (t : Q * Q * Q) : list Q := let '(a, b, d) := t in [a; b; d].\n")
+          "Definition s3 (t : Q * Q * Q) : list Q := let '(a, b, d) := t in [a; b; d].\n"
+          "Definition pr (t : list Q * Q) : list Q := fst t ++ [snd t].\n")
 
 
-def coq_lists(c, evals, timeout=240):
-    """evals: list of Gallina expressions of type list Q -> list of lists of Fractions (exact)"""
+def parse_lists(out, n):
+    blocks = re.split(r"^\s*= ", out, flags=re.M)[1:]
+    if len(blocks) != n:
+        raise vlib.BuildError("model evaluation: %d results for %d queries" % (len(blocks), n))
     res = []
-    for k in range(0, len(evals), 400):
-        chunk = evals[k:k + 400]
-        txt = HEADER + "".join("Eval vm_compute in (outq (%s)).\n" % e for e in chunk)
-        rc, out, err = c.coq_eval([os.path.join(c.work, 'coq', m) for m in MODEL], txt, timeout=timeout)
-        if rc != 0:
-            raise vlib.BuildError("model evaluation failed: " + err[-2000:])
-        blocks = re.split(r"^\s*= ", out, flags=re.M)[1:]
-        if len(blocks) != len(chunk):
-            raise vlib.BuildError("model evaluation: %d results for %d queries" % (len(blocks), len(chunk)))
-        for b in blocks:
-            b = re.sub(r"\s+|%Z", "", b.split(":list")[0] if ":list" in b else re.sub(r"\s+", "", b).split(":list")[0])
-            res.append([Fraction(int(a), int(d)) for a, d in re.findall(r"\(\(?(-?\d+)\)?,(\d+)\)", b)])
+    for b in blocks:
+        b = re.sub(r"\s+|%Z", "", b)
+        b = b.split(":list")[0]
+        res.append([Fraction(int(a), int(d)) for a, d in re.findall(r"\(\(?(-?\d+)\)?,(\d+)\)", b)])
     return res
+
+
+def coq_lists(c, evals, prelude="", timeout=600):
+    """evals: Gallina expressions of type list Q -> list of lists of Fractions (exact); one coqc call"""
+    if not evals:
+        return []
+    txt = HEADER + prelude + "".join("Eval vm_compute in (outq (%s)).\n" % e for e in evals)
+    rc, out, err = c.coq_eval([os.path.join(c.work, 'coq', m) for m in LIGHT + ["C53_gen.v"]], txt, timeout=timeout)
+    if rc != 0:
+        raise vlib.BuildError("model evaluation failed: " + err[-2000:])
+    return parse_lists(out, len(evals))
 
 
 def close(a, b, scale, tol=1e-9):
@@ -70,8 +90,8 @@ def grp_ok(cpp, mod, tol=1e-9):
     return all(close(a, m, scale, tol) for a, m in zip(cpp, mod))
 
 
-# --------------------------------------------------------------------------------------------- stages
-def stage_consts(c, drv):
+# --------------------------------------------------------------------------------------------- constants of the compiled code
+def read_consts(c, drv):
     rc, out, err = c.run([drv, "consts"])
     if rc != 0:
         raise vlib.BuildError("driver consts failed: " + err[-800:])
@@ -80,34 +100,96 @@ def stage_consts(c, drv):
         t = l.split()
         v = [float(x) for x in t[1:]]
         gps[int(t[0][1])] = list(zip(v[0::2], v[1::2]))
-    # linear: +-1/sqrt(3), weight 1 ; quadratic: +-sqrt(3/5), 0 ; 5/9, 8/9, 5/9   (lin_gps_R / quad_gps_R of the model)
-    F = Fraction
-    lin_ok = (len(gps[1]) == 2 and gps[1][0][0] < 0 < gps[1][1][0] and all(abs(3 * F(p) ** 2 - 1) < F(1, 10 ** 15) and w == 1.0 for p, w in gps[1]))
-    c.count(2, "consts:linear")
-    if not lin_ok:
-        c.report("consts:linear", "PipeLinearElement::pg_radii/wg = %s are not the 2-point Gauss rule (+-1/sqrt 3, 1) of the model" % (gps[1],),
-                 {"observed": gps[1], "how": "props/C53/driver.cxx consts"}, True)
-    q = gps[2]
-    quad_ok = (len(q) == 3 and q[0][0] < 0 < q[2][0] and q[1][0] == 0.0 and all(abs(5 * F(q[k][0]) ** 2 - 3) < F(1, 10 ** 15) for k in (0, 2))
-               and all(abs(9 * F(q[k][1]) - 5) < F(1, 10 ** 15) for k in (0, 2)) and abs(9 * F(q[1][1]) - 8) < F(1, 10 ** 15))
-    c.count(3, "consts:quadratic")
-    if not quad_ok:
-        c.report("consts:quadratic", "PipeQuadraticElement::pg_radii/wg = %s are not the 3-point Gauss rule (+-sqrt(3/5), 0; 5/9, 8/9, 5/9) of the model" % (q,),
-                 {"observed": q, "how": "props/C53/driver.cxx consts"}, True)
-    m = coq_lists(c, ["flat_map (fun xw => [fst xw; snd xw]) (cub_gps QNum)"])[0]
-    mg = list(zip(m[0::2], m[1::2]))
-    c.count(4, "consts:cubic")
-    cub_ok = len(gps[3]) == 4 and all(abs(F(p) - mp) < F(1, 10 ** 16) and abs(F(w) - mw) < F(1, 10 ** 16) for (p, w), (mp, mw) in zip(gps[3], mg))
-    if not cub_ok:
-        c.report("consts:cubic", "PipeCubicElement::pg_radii/wg = %s differ from the decimal 4-point rule of the model %s" % (
-            gps[3], [(float(a), float(b)) for a, b in mg]), {"observed": gps[3], "how": "props/C53/driver.cxx consts"}, True)
     return gps
 
 
+def write_gen(c, gps):
+    """C53_gen.v: the quadrature constants the compiled element code uses, as exact rationals (regenerated at every run)"""
+    def lit(x):
+        f = Fraction(x)
+        return "(ndiv N (nZ N (%d)) (nZ N %d))" % (f.numerator, f.denominator)
+    out = ["(* GENERATED at every run by props/C53/check.py from the values printed by `driver consts`, i.e. the constexpr",
+           "   pg_radii / wg of mtest/include/MTest/Pipe{Linear,Quadratic,Cubic}Element.hxx as compiled from the tree under test:",
+           "   the exact rational value of each double. *)",
+           "From Coq Require Import ZArith QArith List.", "From C53 Require Import C53Num.", "Import ListNotations.",
+           "Section Gen.", "  Context {T : Type} (N : Num T)."]
+    for e in (1, 2, 3):
+        out.append("  Definition %s : list (T * T) :=\n    [%s]." % (GEN[e], ";\n     ".join("(%s, %s)" % (lit(p), lit(w)) for p, w in gps[e])))
+    out.append("End Gen.")
+    wd = os.path.join(c.work, "coq")
+    os.makedirs(wd, exist_ok=True)
+    path = os.path.join(wd, "C53_gen.v")
+    with open(path, "w") as f:
+        f.write("\n".join(out) + "\n")
+    return path
+
+
+def moment_defects(pts, degree, eps):
+    """independent statement of `a Gauss rule integrates x^k exactly for k <= degree`, exact rational arithmetic on the doubles"""
+    bad = []
+    for k in range(degree + 1):
+        m = sum(Fraction(w) * Fraction(p) ** k for p, w in pts)
+        ex = Fraction(2, k + 1) if k % 2 == 0 else Fraction(0)
+        if abs(m - ex) > eps:
+            bad.append((k, float(m), float(ex)))
+    return bad
+
+
+def stage_consts(c, gps):
+    F = Fraction
+    spec = {1: (2, 3, F(1, 10 ** 15)), 2: (3, 5, F(1, 10 ** 15)), 3: (4, 7, F(1, 10 ** 14))}
+    for e in (1, 2, 3):
+        npts, deg, eps = spec[e]
+        c.count(npts, "consts:" + ENAME[e])
+        bad = moment_defects(gps[e], deg, eps) if len(gps[e]) == npts else [("count", len(gps[e]), npts)]
+        inside = all(-1 <= p <= 1 for p, _ in gps[e])
+        if bad or not inside:
+            k, got, want = bad[0] if bad else ("abscissa", [p for p, _ in gps[e]], "[-1,1]")
+            c.report("consts:%s" % ENAME[e],
+                     "Pipe%sElement::pg_radii/wg = %s is not the %d-point Gauss rule: sum_g w_g x_g^%s = %r instead of %r (exactness up to degree %d "
+                     "within %.0e is what the element needs and what theorem C53_gauss_* states on these constants)" % (
+                         PTNAME[e], gps[e], npts, k, got, want, deg, float(eps)),
+                     {"observed": gps[e], "moment": k, "value": got, "expected": want, "how": "props/C53/driver.cxx consts"}, True)
+    # the decimal literals of the cubic header, read as text, are the doubles the compiled code uses
+    try:
+        txt = open(os.path.join(vlib.REPO, "mtest/include/MTest/PipeCubicElement.hxx")).read()
+        num = r"[-+]?\d+\.\d+(?:[eE][-+]?\d+)?"
+        pg = re.search(r"pg_radii\s*\[4\]\s*=\s*\{([^}]*)\}", txt)
+        wg = re.search(r"\bwg\s*\[4\]\s*=\s*\{([^}]*)\}", txt)
+        hp = [float(x) for x in re.findall(num, pg.group(1))] if pg else []
+        hw = [float(x) for x in re.findall(num, wg.group(1))] if wg else []
+        if len(hp) == 4 and len(hw) == 4:
+            c.count(4, "consts:cubic:header-text")
+            if list(zip(hp, hw)) != gps[3]:
+                c.report("consts:cubic:header-text", "the decimal literals of PipeCubicElement.hxx %s are not the values the compiled driver prints %s" % (
+                    list(zip(hp, hw)), gps[3]), {"header": list(zip(hp, hw)), "compiled": gps[3]}, False)
+        else:
+            c.notes.append("PipeCubicElement.hxx: pg_radii/wg are no longer plain decimal literals; only the compiled values are used")
+    except OSError:
+        pass
+
+
+def gauss_search(gps):
+    """failing-input search for a broken Gauss obligation of C53ProofsB.v: which constant is not a Gauss rule"""
+    def search(failure):
+        f, line, thm, msg = failure
+        for e, deg, eps in ((3, 7, Fraction(1, 10 ** 14)), (2, 5, Fraction(1, 10 ** 15)), (1, 3, Fraction(1, 10 ** 15))):
+            bad = moment_defects(gps[e], deg, eps)
+            if bad:
+                k, got, want = bad[0]
+                return ("consts:%s" % ENAME[e],
+                        "proof obligation %s (%s) no longer checks on the constants read from the compiled code: Pipe%sElement::pg_radii/wg = %s, "
+                        "sum_g w_g x_g^%d = %r instead of %r" % (thm or "?", f, PTNAME[e], gps[e], k, got, want),
+                        {"theorem": thm, "file": f, "observed": gps[e], "moment": k, "value": got, "expected": want})
+        return None
+    return search
+
+
+# --------------------------------------------------------------------------------------------- stages
 def stage_sf(c, drv, gps):
     rng = c.rng
-    xs = [-1.0, -1 / 3, 0.0, 1 / 3, 1.0, 0.5, -0.5] + [p for e in (1, 2, 3) for p, _ in gps[e]]
-    xs += [rng.randrange(-192, 193) / 128.0 for _ in range(c.pick(10, 200))]
+    xs = [-1.0, -1 / 3, 0.0, 1 / 3, 1.0, 0.5, -0.5] + [gps[3][0][0], gps[3][1][0], gps[2][0][0], gps[1][1][0]]
+    xs += [rng.randrange(-192, 193) / 128.0 for _ in range(c.pick(5, 200))]
     rc, out, err = c.run([drv, "sf"], input="\n".join("%r" % x for x in xs) + "\n")
     if rc != 0:
         raise vlib.BuildError("driver sf failed: " + err[-800:])
@@ -122,7 +204,10 @@ def stage_sf(c, drv, gps):
         for x, vals in rows.get(tag, []):
             evals.append("[" + "; ".join("%s QNum (%s QNum) %s %s" % (fn, ELEM[e], u, qlit(x)) for u in unit[e + 1]) + "]")
             meta.append((tag, e, x, vals))
-    mods = coq_lists(c, evals)
+    return evals, lambda mods: finish_sf(c, xs, meta, mods)
+
+
+def finish_sf(c, xs, meta, mods):
     bad = {}
     for (tag, e, x, vals), mod in zip(meta, mods):
         c.count(1, ("sf", tag, x), True)
@@ -134,7 +219,7 @@ def stage_sf(c, drv, gps):
         c.report("sf:%s:%s" % (ENAME[e], what), "Pipe%sElement::%s at x=%r returns %s for the unit nodal vectors; the model (C53Model.v, shape functions of the source) gives %s" % (
             PTNAME[e], what, x, vals, mod), {"element": ENAME[e], "function": what, "x": x, "observed": vals, "model": mod,
                                              "how": "echo %r | props/C53 driver sf" % x}, True)
-    c.sample({"stage": "shape functions", "x": xs[7], "SF3(model)": [float(m) for m in mods[0]] if mods else None})
+    c.sample({"stage": "shape functions", "x": meta[0][2], "%s(model)" % meta[0][0]: [float(m) for m in mods[0]] if mods else None})
     return len(meta)
 
 
@@ -142,11 +227,11 @@ def elem_case_text(et, Ri, Re, ne, i, K, u):
     return " ".join(["%d %r %r %d %d" % (et, Ri, Re, ne, i)] + ["%r" % k for k in K] + ["%r" % v for v in u])
 
 
-def stage_elem(c, drv, gps):
+def stage_elem(c, drv):
     rng = c.rng
     cases = []
     for et in (1, 2, 3):
-        for _ in range(c.pick(2, 12)):
+        for _ in range(c.pick(1 if et == 3 else 2, 8)):     # exact evaluation of a cubic element costs ~4 s
             Ri = rng.randrange(32, 321) / 64.0
             Re = Ri + rng.randrange(16, 193) / 64.0
             ne = rng.randrange(1, 5)
@@ -169,7 +254,7 @@ def stage_elem(c, drv, gps):
         dr = (Fraction(Re) - Fraction(Ri)) / ne
         r0 = Fraction(Ri) + dr * i
         e = "(%s QNum)" % ELEM[et]
-        g = "(cub_gps QNum)" if et == 3 else "[" + "; ".join("(%s, %s)" % (qlit(p), qlit(w)) for p, w in gps[et]) + "]"
+        g = "(%s QNum)" % GEN[et]
         us = qlist(u[et * i: et * i + et + 1])
         ezz = qlit(u[-1])
         rs = "(elem_radii QNum %s %s %s)" % (e, qlit(r0), qlit(dr))
@@ -177,7 +262,10 @@ def stage_elem(c, drv, gps):
         for flag in ("false", "true"):
             (evals if flag == "false" else variant).append("elem_forces QNum %s %s %s %s %s %s %s 1 ++ concat (elem_stiffness QNum %s %s %s %s %s 1)" % (
                 e, flag, g, qlist(K), rs, us, ezz, e, flag, g, qlist(K), rs))
-    mods = coq_lists(c, evals)
+    return evals, lambda mods: finish_elem(c, cases, obs, variant, mods)
+
+
+def finish_elem(c, cases, obs, variant, mods):
     tp = Fraction(TWOPI)
     reported = set()
     for k, (et, Ri, Re, ne, i, K, u) in enumerate(cases):
@@ -208,7 +296,6 @@ def stage_elem(c, drv, gps):
                 c.report(key, "Pipe%sElement::computeStrain: Gauss point positions/strains %s differ from the model %s (Ri=%r Re=%r ne=%d i=%d)" % (
                     PTNAME[et], gp_cpp, [float(v) for v in mgp], Ri, Re, ne, i), replay, True)
             continue
-        both = r_loc + k_loc
         if loc and not outside and grp_ok(r_loc, mok[:nl + 1]) and grp_ok(k_loc, mok[nl + 1:]):
             continue
         mbug = [tp * v for v in coq_lists(c, [variant[k]])[0]]
@@ -227,6 +314,129 @@ def stage_elem(c, drv, gps):
                            "observed_stiffness": k_loc, "model_stiffness": [float(v) for v in mok[nl + 1:]]})
             c.report(key, what, replay, True)
     return len(cases)
+
+
+def asm_case_text(et, Ri, Re, ne, Pi, Pe, axial, K, u):
+    return " ".join(["%d %r %r %d %r %r %d" % (et, Ri, Re, ne, Pi, Pe, axial)] + ["%r" % k for k in K] + ["%r" % v for v in u])
+
+
+def run_asm(c, drv, cases):
+    rc, out, err = c.run([drv, "asm"], input="\n".join(asm_case_text(*k) for k in cases) + "\n")
+    if rc != 0:
+        raise vlib.BuildError("driver asm failed: " + err[-800:])
+    obs = {}
+    for l in out.splitlines():
+        t = l.split()
+        if t[0] == "ASM":
+            obs.setdefault(int(t[1]), {})["ok"] = t[2] == "1"
+        elif t[0] in ("R", "K"):
+            obs.setdefault(int(t[1]), {})[t[0]] = [float(v) for v in t[2:]]
+    return obs
+
+
+def stage_asm(c, drv):
+    """the REAL PipeTest::computeStiffnessMatrixAndResidual against the assembly model (C53Model.v pipe_residual_K,
+    pipe_stiffness_action) run on Q; symmetry and mesh-level patch test stated independently on the real output"""
+    rng = c.rng
+    cases = []
+    nvec = c.pick(1, 2)
+    for et in (1, 2, 3):
+        for j in range(c.pick(1 if et == 3 else 2, 6)):     # quick: meshes of 2 or 3 elements (shared nodes), one cubic case
+            Ri = rng.randrange(32, 321) / 64.0
+            Re = Ri + rng.randrange(16, 193) / 64.0
+            ne = (2 if et == 3 else 2 + j) if c.quick() else rng.randrange(1, 5)
+            K = [rng.randrange(-64, 65) / 16.0 for _ in range(9)]
+            if j % 2 == 1 or (et == 3 and c.quick()):      # symmetric tangent
+                K[3], K[6], K[7] = K[1], K[2], K[5]
+            u = [rng.randrange(-256, 257) / 256.0 for _ in range(et * ne + 2)]
+            cases.append((et, Ri, Re, ne, rng.randrange(-64, 65) / 8.0, rng.randrange(-64, 65) / 8.0, (j + et) % 2, K, u))
+    obs = run_asm(c, drv, cases)
+    pi = qlit(PI)
+    evals, ws = [], []
+    for (et, Ri, Re, ne, Pi, Pe, axial, K, u) in cases:
+        n = et * ne + 2
+        e = "(%s QNum)" % ELEM[et]
+        g = "(%s QNum)" % GEN[et]
+        geo = "%s %s %d%%nat" % (qlit(Ri), qlit(Re), ne)
+        evals.append("pr (pipe_residual_K QNum %s %s %s %s %s %s %s %s %s %s)" % (
+            e, g, qlist(K), geo, qlist(u[:-1]), qlit(u[-1]), qlit(Pi), qlit(Pe), "true" if axial else "false", pi))
+        w = [[rng.randrange(-8, 9) / 4.0 for _ in range(n)] for _ in range(nvec)]
+        ws.append(w)
+        for v in w:
+            evals.append("pr (pipe_stiffness_action QNum %s %s %s %s %s %s %s)" % (e, g, qlist(K), geo, qlist(v[:-1]), qlit(v[-1]), pi))
+    return evals, lambda mods: finish_asm(c, drv, cases, obs, ws, nvec, mods)
+
+
+def finish_asm(c, drv, cases, obs, ws, nvec, mods):
+    rng = c.rng
+    reported = set()
+    for k, (et, Ri, Re, ne, Pi, Pe, axial, K, u) in enumerate(cases):
+        n = et * ne + 2
+        o = obs.get(k, {})
+        r_cpp, k_cpp = o.get("R", []), o.get("K", [])
+        c.count(1, ("asm", k, et), True)
+        replay = {"element": ENAME[et], "Ri": Ri, "Re": Re, "number_of_elements": ne, "Pi": Pi, "Pe": Pe, "axial(0 none,1 end cap)": axial,
+                  "K_row_major(rr,zz,tt)": K, "u(nodes..,ezz)": u, "how": "echo '%s' | <driver> asm" % asm_case_text(*cases[k])}
+        if k % 5 == 0:
+            c.sample({"stage": "assembly by the real PipeTest", "element": ENAME[et], "ne": ne, "residual(code)": r_cpp,
+                      "residual(model)": [float(v) for v in mods[(1 + nvec) * k]]})
+        key = None
+        if not o.get("ok") or len(r_cpp) != n or len(k_cpp) != n * n:
+            key, what = "asm:%s:failed" % ENAME[et], "PipeTest::computeStiffnessMatrixAndResidual failed or returned the wrong sizes"
+        elif not grp_ok(r_cpp, mods[(1 + nvec) * k]):
+            key = "asm:%s:residual" % ENAME[et]
+            what = ("PipeTest::computeStiffnessMatrixAndResidual (%s elements, ne=%d, Ri=%r Re=%r Pi=%r Pe=%r axial=%d): residual %s differs from the "
+                    "assembly model %s" % (ENAME[et], ne, Ri, Re, Pi, Pe, axial, r_cpp, [float(v) for v in mods[(1 + nvec) * k]]))
+        else:
+            for j, w in enumerate(ws[k]):
+                kw = [sum(k_cpp[a * n + b] * w[b] for b in range(n)) for a in range(n)]
+                if not grp_ok(kw, mods[(1 + nvec) * k + 1 + j]):
+                    key = "asm:%s:stiffness" % ENAME[et]
+                    what = ("PipeTest::computeStiffnessMatrixAndResidual (%s elements, ne=%d, Ri=%r Re=%r): stiffness matrix times w=%s is %s, the assembly "
+                            "model gives %s" % (ENAME[et], ne, Ri, Re, w, kw, [float(v) for v in mods[(1 + nvec) * k + 1 + j]]))
+                    break
+            # theorem C53_assembled_stiffness_symmetric stated on the real matrix
+            if key is None and K[3] == K[1] and K[6] == K[2] and K[7] == K[5]:
+                sc = max(abs(v) for v in k_cpp)
+                asym = max(abs(k_cpp[a * n + b] - k_cpp[b * n + a]) for a in range(n) for b in range(n))
+                if asym > 1e-11 * sc:
+                    key = "asm:%s:not-symmetric" % ENAME[et]
+                    what = "the stiffness assembled by PipeTest for a symmetric tangent K=%s is not symmetric (max |k_ab - k_ba| = %.3g, scale %.3g)" % (K, asym, sc)
+        if key and key not in reported:
+            reported.add(key)
+            replay.update({"observed_residual": r_cpp, "model_residual": [float(v) for v in mods[(1 + nvec) * k]], "observed_stiffness": k_cpp})
+            c.report(key, what, replay, True)
+    # mesh-level patch test (theorem C53_mesh_patch_test_*) on the real code: uniform pressure, exact Lame field u = a r
+    pcases, pmeta = [], []
+    for et in (1, 2, 3):
+        for ne in c.pick((1, 3), (1, 2, 3, 5, 8)):
+            for axial in (0, 1):
+                Ri = rng.randrange(32, 321) / 64.0
+                Re = Ri * rng.choice([1.125, 1.5, 2.5])
+                E, nu, P = rng.randrange(50, 251) * 1e9, rng.randrange(10, 41) / 100.0, rng.randrange(1, 51) * 1e6
+                lam, mu = nu * E / ((1 + nu) * (1 - 2 * nu)), E / (2 * (1 + nu))
+                K = [lam + 2 * mu, lam, lam, lam, lam + 2 * mu, lam, lam, lam, lam + 2 * mu]
+                sz = -P if axial else 0.0
+                a = (-P - nu * (-P + sz)) / E
+                ezz = (sz + 2 * nu * P) / E
+                nn = et * ne + 1
+                u = [a * (Ri + (Re - Ri) * k / (nn - 1)) for k in range(nn)] + [ezz]
+                pcases.append((et, Ri, Re, ne, P, P, axial, K, u))
+                pmeta.append((E, nu, P))
+    pobs = run_asm(c, drv, pcases)
+    for k, (et, Ri, Re, ne, Pi, Pe, axial, K, u) in enumerate(pcases):
+        r_cpp = pobs.get(k, {}).get("R", [])
+        c.count(1, ("asm-patch", et, ne, axial), True)
+        scale = TWOPI * Pi * Re
+        if len(r_cpp) != et * ne + 2 or not all(abs(v) <= (2e-9 if et == 3 else 1e-10) * scale for v in r_cpp):
+            key = "asm:%s:patch" % ENAME[et]
+            if key not in reported:
+                reported.add(key)
+                c.report(key, "mesh-level patch test: with the exact Lame field of a uniform pressure P=%r (E=%r nu=%r, Ri=%r Re=%r, %d %s elements, axial=%d) the "
+                         "residual assembled by PipeTest is %s (scale 2 pi P Re = %.3g): it should vanish" % (
+                             Pi, pmeta[k][0], pmeta[k][1], Ri, Re, ne, ENAME[et], axial, r_cpp, scale),
+                         {"element": ENAME[et], "how": "echo '%s' | <driver> asm" % asm_case_text(*pcases[k])}, True)
+    return len(cases) + len(pcases)
 
 
 def problems(c):
@@ -257,74 +467,96 @@ def parse_fe(out):
     return res
 
 
-class Oracle:
-    """the proved closed form (C53Spec.v, lame_*_G) evaluated on Q by vm_compute"""
+class Oracles:
+    """the proved closed form (C53Num.v lame_*_G, theorem C53_lame_solves_pipe_problem) evaluated on Q by vm_compute; one coqc
+    call per batch of points, all problems together"""
 
-    def __init__(self, c, pb):
-        self.c, self.pb, self.cache = c, pb, {}
-        a = [qlit(pb[k]) for k in ("Ri", "Re", "Pi", "Pe")]
-        self.geo = " ".join(a)
-        self.mat = "%s %s" % (qlit(pb["E"]), qlit(pb["nu"]))
-        # szz_end_cap = lameA / szz_no_axial_force = 0 (C53Spec.v)
-        A, e1, e0 = coq_lists(c, ["let A := lameA_G QNumPlain %s in [A; lame_ezz_G QNumPlain %s %s A; lame_ezz_G QNumPlain %s %s 0]" % (
-            self.geo, self.mat, self.geo, self.mat, self.geo)])[0]
-        self.s = A if pb["axial"] == 1 else Fraction(0)
-        self.ezz = e1 if pb["axial"] == 1 else e0
+    def __init__(self, c, pbs):
+        self.c, self.pbs = c, pbs
+        self.cache = [dict() for _ in pbs]
+        self.prelude = ""
+        ev = []
+        for ip, pb in enumerate(pbs):
+            self.prelude += "".join("Definition %s%d := %s.\n" % (k, ip, qlit(pb[k])) for k in ("E", "nu", "Ri", "Re", "Pi", "Pe"))
+            geo = "Ri%d Re%d Pi%d Pe%d" % (ip, ip, ip, ip)
+            # szz_end_cap = lameA / szz_no_axial_force = 0 (C53SpecFE.v)
+            self.prelude += "Definition s%d := %s.\n" % (ip, ("lameA_G QNum " + geo) if pb["axial"] == 1 else "(0 # 1)")
+            # lame_fields_AB ... (lameA_G ..) (lameB_G ..) r = [lame_u_G ..; lame_srr_G ..; lame_stt_G ..] by definition (C53Num.v lame_fields_AB_def);
+            # A and B are computed once per problem (Definition + vm_compute of the body at each use would recompute them: they are let-bound
+            # outside the map in `prefetch`)
+            self.prelude += "Definition f%d (A B r : Q) := lame_fields_AB QNum E%d nu%d s%d A B r.\n" % (ip, ip, ip, ip)
+            self.prelude += "Definition A%d := lameA_G QNum %s.\nDefinition B%d := lameB_G QNum %s.\n" % (ip, geo, ip, geo)
+            ev.append("[s%d; lame_ezz_G QNum E%d nu%d %s s%d]" % (ip, ip, ip, geo, ip))
+        self.head, self.s, self.ezz = ev, None, None
 
-    def at(self, rs):
-        todo = [r for r in dict.fromkeys(rs) if r not in self.cache]
-        ev = ["[lame_u_G QNumPlain %s %s %s %s; lame_srr_G QNumPlain %s %s; lame_stt_G QNumPlain %s %s]" % (
-            self.mat, self.geo, qlit(self.s), qlit(r), self.geo, qlit(r), self.geo, qlit(r)) for r in todo]
-        for r, v in zip(todo, coq_lists(self.c, ev)):
-            self.cache[r] = [float(x) for x in v]
-        return [self.cache[r] for r in rs]
+    def prefetch(self, pts):
+        """pts: {ip: iterable of radii}"""
+        todo = [(ip, [r for r in dict.fromkeys(rs) if r not in self.cache[ip]]) for ip, rs in pts.items()]
+        todo = [(ip, rs) for ip, rs in todo if rs]
+        if not todo and self.s is not None:
+            return
+        head = self.head if self.s is None else []
+        ev = ["let A := A%d in let B := B%d in flat_map (f%d A B) %s" % (ip, ip, ip, qlist(rs)) for ip, rs in todo]
+        vals = coq_lists(self.c, head + ev, self.prelude)
+        if head:
+            self.s = [v[0] for v in vals[:len(head)]]
+            self.ezz = [v[1] for v in vals[:len(head)]]
+        for (ip, rs), v in zip(todo, vals[len(head):]):
+            for j, r in enumerate(rs):
+                self.cache[ip][r] = [float(x) for x in v[3 * j: 3 * j + 3]]
+
+    def at(self, ip, rs):
+        self.prefetch({ip: rs})
+        return [self.cache[ip][r] for r in rs]
 
 
-def errors(pb, orc, et, ne, u, S):
+def errors(pb, orc, ip, et, ne, u, S):
     """(displacement error, stress error) of an FE solution relative to the scale of the exact one"""
     Ri, Re = pb["Ri"], pb["Re"]
     nn = et * ne + 1
     rn = [Ri + (Re - Ri) * k / (nn - 1) for k in range(nn)]
-    ex = orc.at(rn + [row[0] for row in S])
+    ex = orc.at(ip, rn + [row[0] for row in S])
     un = [e[0] for e in ex[:nn]]
     su = max(abs(v) for v in un)
-    ezz = float(orc.ezz)
+    ezz = float(orc.ezz[ip])
     eu = max(abs(a - b) for a, b in zip(u[:nn], un)) / su
     eu = max(eu, abs(u[nn] - ezz) / max(abs(ezz), su / Ri))
     ss = max(abs(pb["Pi"]), abs(pb["Pe"]), max(abs(e[2]) for e in ex[nn:]))
     es = 0.0
     for row, e in zip(S, ex[nn:]):
-        es = max(es, abs(row[1] - e[1]) / ss, abs(row[2] - e[2]) / ss, abs(row[3] - float(orc.s)) / ss)
+        es = max(es, abs(row[1] - e[1]) / ss, abs(row[2] - e[2]) / ss, abs(row[3] - float(orc.s[ip])) / ss)
     if not all(math.isfinite(v) for v in u) or not all(math.isfinite(v) for row in S for v in row):
         eu = es = float("inf")
     return eu, es
 
 
-def judge(et, errs):
+def judge(et, errs, nes, rates):
     """errs: {ne: (eu, es)} -> list of reasons why this is not `converging to Lame at the element's order`"""
     why = []
-    eu16, es16 = errs[16]
-    if not (eu16 <= BOUND_U[et]):
-        why.append("displacement error at 16 elements %.3g > %.3g" % (eu16, BOUND_U[et]))
-    if not (es16 <= BOUND_S[et]):
-        why.append("stress error at 16 elements %.3g > %.3g" % (es16, BOUND_S[et]))
-    for a, b in zip(NES, NES[1:]):
+    for ne in nes:
+        eu, es = errs[ne]
+        if not (eu <= BOUND_U[et][ne]):
+            why.append("displacement error with %d elements %.3g > %.3g" % (ne, eu, BOUND_U[et][ne]))
+        if not (es <= BOUND_S[et][ne]):
+            why.append("stress error with %d elements %.3g > %.3g" % (ne, es, BOUND_S[et][ne]))
+    for a, b in zip(nes, nes[1:]):
         for j, nm in ((0, "displacement"), (1, "stress")):
             if errs[b][j] > FLOOR and not (errs[b][j] < errs[a][j]):
                 why.append("%s error does not decrease from %d to %d elements (%.3g -> %.3g)" % (nm, a, b, errs[a][j], errs[b][j]))
-    for j, nm, order in ((0, "displacement", et + 1 - 0.6), (1, "stress", et - 0.45)):
-        if errs[16][j] > FLOOR and errs[8][j] > 0 and math.isfinite(errs[8][j]):
-            rate = math.log2(errs[8][j] / errs[16][j]) if errs[16][j] > 0 else 99
-            if not (rate >= order):
-                why.append("%s convergence rate 8->16 elements %.2f < %.2f" % (nm, rate, order))
+    if rates and 8 in errs and 16 in errs:
+        for j, nm, order in ((0, "displacement", et + 1 - 0.6), (1, "stress", et - 0.45)):
+            if errs[16][j] > FLOOR and errs[8][j] > 0 and math.isfinite(errs[8][j]):
+                rate = math.log2(errs[8][j] / errs[16][j]) if errs[16][j] > 0 else 99
+                if not (rate >= order):
+                    why.append("%s convergence rate 8->16 elements %.2f < %.2f" % (nm, rate, order))
     return why
 
 
-def stage_fe(c, drv, pbs, orcs):
+def stage_fe(c, drv, pbs, orc, nes):
     lines, meta = [], []
     for ip, pb in enumerate(pbs):
         for et in (1, 2, 3):
-            for ne in NES:
+            for ne in nes:
                 lines.append("%d %r %r %d %r %r %r %r %d" % (et, pb["Ri"], pb["Re"], ne, pb["E"], pb["nu"], pb["Pi"], pb["Pe"], pb["axial"]))
                 meta.append((ip, et, ne))
     rc, out, err = c.run([drv, "fe"], input="\n".join(lines) + "\n")
@@ -334,53 +566,70 @@ def stage_fe(c, drv, pbs, orcs):
     sol = {}
     for k, (ip, et, ne) in enumerate(meta):
         sol[(ip, et, ne)] = res[k]
+    pts = {}
     for ip, pb in enumerate(pbs):
-        pts = []
+        pts[ip] = [pb["Ri"], pb["Re"]]
         for et in (1, 2, 3):
-            for ne in NES:
+            for ne in nes:
                 nn = et * ne + 1
-                pts += [pb["Ri"] + (pb["Re"] - pb["Ri"]) * k / (nn - 1) for k in range(nn)] + [row[0] for row in sol[(ip, et, ne)]["S"]]
-        orcs[ip].at(pts)   # one batch per problem
+                pts[ip] += [pb["Ri"] + (pb["Re"] - pb["Ri"]) * k / (nn - 1) for k in range(nn)] + [
+                    row[0] for row in sol[(ip, et, ne)]["S"] if math.isfinite(row[0])]
+    orc.prefetch(pts)   # one coqc call for all the problems
+    for ip, pb in enumerate(pbs):
         for et in (1, 2, 3):
-            errs = {ne: errors(pb, orcs[ip], et, ne, sol[(ip, et, ne)]["u"], sol[(ip, et, ne)]["S"]) for ne in NES}
-            c.count(len(NES), ("fe", ip, et), True)
-            why = judge(et, errs)
+            errs = {ne: errors(pb, orc, ip, et, ne, sol[(ip, et, ne)]["u"], sol[(ip, et, ne)]["S"]) for ne in nes}
+            c.count(len(nes), ("fe", ip, et), True)
+            why = judge(et, errs, nes, True)
             if ip == 0:
-                c.sample({"stage": "element routines + our LU (execution)", "element": ENAME[et], "problem": pb,
-                          "errors(ne: displacement, stress)": {ne: ["%.3g" % v for v in errs[ne]] for ne in NES}})
+                c.sample({"stage": "real PipeTest assembly + our LU (execution)", "element": ENAME[et], "problem": pb,
+                          "errors(ne: displacement, stress)": {ne: ["%.3g" % v for v in errs[ne]] for ne in nes}})
             if why:
                 c.report("fe:%s:not-lame" % ENAME[et],
-                         "elastic pipe solved with Pipe%sElement::updateStiffnessMatrixAndInnerForces does not converge to the Lame solution: %s; problem %s; errors %s" % (
-                             PTNAME[et], "; ".join(why[:3]), pb, {ne: ["%.3g" % v for v in errs[ne]] for ne in NES}),
-                         {"problem": pb, "element": ENAME[et], "errors": {str(ne): errs[ne] for ne in NES}, "reasons": why,
-                          "how": "echo '%d %r %r 16 %r %r %r %r %d' | <driver> fe" % (et, pb["Ri"], pb["Re"], pb["E"], pb["nu"], pb["Pi"], pb["Pe"], pb["axial"])}, True)
+                         "elastic pipe assembled by PipeTest::computeStiffnessMatrixAndResidual with %s elements does not converge to the Lame solution: %s; problem %s; errors %s" % (
+                             PTNAME[et], "; ".join(why[:3]), pb, {ne: ["%.3g" % v for v in errs[ne]] for ne in nes}),
+                         {"problem": pb, "element": ENAME[et], "errors": {str(ne): errs[ne] for ne in nes}, "reasons": why,
+                          "how": "echo '%d %r %r %d %r %r %r %r %d' | <driver> fe" % (et, pb["Ri"], pb["Re"], nes[-1], pb["E"], pb["nu"], pb["Pi"], pb["Pe"], pb["axial"])}, True)
     return sol
 
 
 def build_behaviour(c):
-    """small isotropic elastic behaviour generated by the mfront of /repo/_build (generic interface)"""
-    wd = os.path.join(c.work, "mfront")
-    os.makedirs(wd, exist_ok=True)
-    shutil.copyfile(os.path.join(c.dir, "Elas.mfront"), os.path.join(wd, "Elas.mfront"))
-    # vlib.run isolates mfront in a private /dev/shm: the shared semaphore is never touched
-    rc, out, err = c.run([os.path.join(vlib.REPO_BUILD, "mfront", "src", "mfront"), "--interface=generic", "Elas.mfront"], cwd=wd, timeout=300)
-    if rc != 0:
-        raise vlib.BuildError("mfront failed on Elas.mfront: " + (out + err)[-1500:])
-    return c.cxx("libVElas.so", [os.path.join(wd, "src", "VElas.cxx"), os.path.join(wd, "src", "VElas-generic.cxx")],
-                 flags=["-fPIC", "-I" + os.path.join(wd, "include")], libs=["-shared"])
+    """small isotropic elastic behaviour generated by the mfront of /repo/_build (generic interface).  The generated sources are
+    cached (key: Elas.mfront and the mfront binary); their objects are cached by vlib (preprocessed-source hash)."""
+    mfront = os.path.join(vlib.REPO_BUILD, "mfront", "src", "mfront")
+    st = os.stat(mfront)
+    key = hashlib.sha256((open(os.path.join(c.dir, "Elas.mfront")).read() + "%d %d" % (st.st_size, st.st_mtime_ns)).encode()).hexdigest()[:20]
+    wd = os.path.join(vlib.CACHE, "C53-behaviour", key)
+    srcs = [os.path.join(wd, "src", "VElas.cxx"), os.path.join(wd, "src", "VElas-generic.cxx")]
+    if not all(os.path.exists(s) for s in srcs):
+        tmp = os.path.join(c.work, "mfront")
+        os.makedirs(tmp, exist_ok=True)
+        shutil.copyfile(os.path.join(c.dir, "Elas.mfront"), os.path.join(tmp, "Elas.mfront"))
+        # vlib.run isolates mfront in a private /dev/shm: the shared semaphore is never touched
+        rc, out, err = c.run([mfront, "--interface=generic", "Elas.mfront"], cwd=tmp, timeout=300)
+        if rc != 0:
+            raise vlib.BuildError("mfront failed on Elas.mfront: " + (out + err)[-1500:])
+        os.makedirs(os.path.dirname(wd), exist_ok=True)
+        stage = wd + ".%d" % os.getpid()
+        shutil.copytree(tmp, stage)
+        try:
+            os.rename(stage, wd)
+        except OSError:
+            shutil.rmtree(stage, ignore_errors=True)
+    return c.cxx("libVElas.so", srcs, flags=["-fPIC", "-I" + os.path.join(wd, "include")], libs=["-shared"])
 
 
-def stage_mtest(c, pbs, orcs, sol):
+def stage_mtest(c, pbs, orc, sol, nes):
     c.repo_build(["mtest", "mfront"])
+    c.log('mtest and mfront are up to date', cpu())
     lib = build_behaviour(c)
+    c.log('behaviour built', cpu())
     mtest = os.path.join(vlib.REPO_BUILD, "mtest", "src", "mtest")
     wd = os.path.join(c.work, "ptest")
     os.makedirs(wd, exist_ok=True)
-    nruns = 0
-    runs = {}
+    jobs = []
     for ip, pb in enumerate(pbs):
         for et in (1, 2, 3):
-            for ne in NES:
+            for ne in nes:
                 name = "p%d_%s_%d" % (ip, ENAME[et], ne)
                 with open(os.path.join(wd, name + ".ptest"), "w") as f:
                     f.write("@InnerRadius %r;\n@OuterRadius %r;\n@NumberOfElements %d;\n@ElementType '%s';\n@AxialLoading '%s';\n"
@@ -390,24 +639,31 @@ def stage_mtest(c, pbs, orcs, sol):
                             "@Times {0,1};\n@OutputFilePrecision 17;\n@Profile '%s.prof' {'SRR','STT','SZZ'};\n" % (
                                 pb["Ri"], pb["Re"], ne, PTNAME[et], "EndCapEffect" if pb["axial"] else "None", lib, pb["E"], pb["nu"],
                                 pb["Pi"], pb["Pe"], name))
-                rc, out, err = c.run([mtest, name + ".ptest"], cwd=wd, timeout=120)
-                nruns += 1
-                success = rc == 0 and "SUCCESS" in out
-                try:
-                    last = [l for l in open(os.path.join(wd, name + ".res")) if not l.startswith("#")][-1].split()
-                    S = [[float(v) for v in l.split()] for l in open(os.path.join(wd, name + ".prof")) if l.strip() and not l.startswith("#")]
-                    S = S[-(et + 1) * ne:]
-                    uin, uout, ezz = float(last[3]), float(last[4]), float(last[5])
-                    if len(S) != (et + 1) * ne or any(len(row) != 4 for row in S):
-                        raise ValueError("profile")
-                    runs[(ip, et, ne)] = (name, success, last, S, uin, uout, ezz)
-                except (OSError, IndexError, ValueError):
-                    runs[(ip, et, ne)] = (name, success, None, None, None, None, None)
+                jobs.append((ip, et, ne, name))
+
+    def one(job):
+        ip, et, ne, name = job
+        rc, out, err = c.run([mtest, name + ".ptest"], cwd=wd, timeout=120)
+        success = rc == 0 and "SUCCESS" in out
+        try:
+            last = [l for l in open(os.path.join(wd, name + ".res")) if not l.startswith("#")][-1].split()
+            S = [[float(v) for v in l.split()] for l in open(os.path.join(wd, name + ".prof")) if l.strip() and not l.startswith("#")]
+            S = S[-(et + 1) * ne:]
+            uin, uout, ezz = float(last[3]), float(last[4]), float(last[5])
+            if len(S) != (et + 1) * ne or any(len(row) != 4 for row in S):
+                raise ValueError("profile")
+            return (name, success, last, S, uin, uout, ezz)
+        except (OSError, IndexError, ValueError):
+            return (name, success, None, None, None, None, None)
+
+    with ThreadPoolExecutor(max_workers=2) as ex:
+        runs = dict(zip([j[:3] for j in jobs], ex.map(one, jobs)))
+    orc.prefetch({ip: [pb["Ri"], pb["Re"]] + [row[0] for (k, r) in runs.items() if k[0] == ip and r[3] for row in r[3] if math.isfinite(row[0])]
+                  for ip, pb in enumerate(pbs)})
     for ip, pb in enumerate(pbs):
-        orcs[ip].at([pb["Ri"], pb["Re"]] + [row[0] for (k, r) in runs.items() if k[0] == ip and r[3] for row in r[3] if math.isfinite(row[0])])
         for et in (1, 2, 3):
             errs, nan_ok, differs = {}, None, None
-            for ne in NES:
+            for ne in nes:
                 name, success, last, S, uin, uout, ezz = runs[(ip, et, ne)]
                 if last is None or not all(math.isfinite(row[0]) for row in S):
                     errs[ne] = (float("inf"), float("inf"))
@@ -417,14 +673,14 @@ def stage_mtest(c, pbs, orcs, sol):
                     nan_ok = (name, last)
                 # error against the proved oracle: only the two boundary nodes are in the .res output
                 Ri, Re = pb["Ri"], pb["Re"]
-                ex = orcs[ip].at([Ri, Re] + [row[0] for row in S])
+                ex = orc.at(ip, [Ri, Re] + [row[0] for row in S])
                 su = max(abs(ex[0][0]), abs(ex[1][0]))
-                ez = float(orcs[ip].ezz)
+                ez = float(orc.ezz[ip])
                 eu = max(abs(uin - ex[0][0]) / su, abs(uout - ex[1][0]) / su, abs(ezz - ez) / max(abs(ez), su / Ri)) if finite else float("inf")
                 ss = max(abs(pb["Pi"]), abs(pb["Pe"]), max(abs(e[2]) for e in ex[2:]))
-                es = max(max(abs(row[1] - e[1]), abs(row[2] - e[2]), abs(row[3] - float(orcs[ip].s))) / ss for row, e in zip(S, ex[2:])) if finite else float("inf")
+                es = max(max(abs(row[1] - e[1]), abs(row[2] - e[2]), abs(row[3] - float(orc.s[ip]))) / ss for row, e in zip(S, ex[2:])) if finite else float("inf")
                 errs[ne] = (eu, es)
-                # agreement with the element-level driver (ties PipeTest's boundary terms / solver to our replication)
+                # agreement with the driver (same assembly code, our LU instead of PipeTest's Newton loop and output routines)
                 d = sol[(ip, et, ne)]
                 if finite and d["ok"]:
                     nn = et * ne + 1
@@ -432,63 +688,126 @@ def stage_mtest(c, pbs, orcs, sol):
                     dd = max([dd] + [abs(a - b) / ss for row, drow in zip(S, d["S"]) for a, b in zip(row[1:4], drow[1:4])])
                     if dd > 1e-7 and differs is None:
                         differs = (name, dd)
-            c.count(len(NES), ("mtest", ip, et), True)
+            c.count(len(nes), ("mtest", ip, et), True)
             if ip == 0:
                 c.sample({"stage": "real mtest binary (execution)", "element": ENAME[et], "problem": pb,
-                          "errors(ne: boundary displacement, stress)": {ne: ["%.3g" % v for v in errs[ne]] for ne in NES}})
+                          "errors(ne: boundary displacement, stress)": {ne: ["%.3g" % v for v in errs[ne]] for ne in nes}})
             if nan_ok:
                 c.report("mtest:%s:nan-accepted" % ENAME[et], "mtest reports SUCCESS for %s.ptest although the results are not finite (last line of the .res file: %s): "
                          "PipeTest::checkConvergence takes the max norm with std::max, which drops NaN" % (nan_ok[0], " ".join(nan_ok[1])),
                          {"problem": pb, "element": ENAME[et], "ptest": open(os.path.join(wd, nan_ok[0] + ".ptest")).read()}, True)
             # the displacement error of the two boundary nodes is super-convergent: only bounds and monotony are asked of it
-            why = [w for w in judge(et, errs) if not w.startswith("displacement convergence rate")]
+            why = [w for w in judge(et, errs, nes, True) if not w.startswith("displacement convergence rate")]
             if why:
                 c.report("mtest:%s:not-lame" % ENAME[et],
                          "mtest (PipeTest, element %s) does not converge to the Lame solution: %s; problem %s; errors %s" % (
-                             PTNAME[et], "; ".join(why[:3]), pb, {ne: ["%.3g" % v for v in errs[ne]] for ne in NES}),
-                         {"problem": pb, "element": ENAME[et], "errors": {str(ne): errs[ne] for ne in NES}, "reasons": why,
-                          "ptest(16 elements)": open(os.path.join(wd, "p%d_%s_16.ptest" % (ip, ENAME[et]))).read()}, True)
+                             PTNAME[et], "; ".join(why[:3]), pb, {ne: ["%.3g" % v for v in errs[ne]] for ne in nes}),
+                         {"problem": pb, "element": ENAME[et], "errors": {str(ne): errs[ne] for ne in nes}, "reasons": why,
+                          "ptest(finest mesh)": open(os.path.join(wd, "p%d_%s_%d.ptest" % (ip, ENAME[et], nes[-1]))).read()}, True)
             if differs:
                 c.report("mtest:%s:differs-from-element-driver" % ENAME[et],
-                         "mtest result of %s.ptest differs from the same problem assembled by props/C53/driver.cxx with the same element routines by %.3g (relative)" % differs,
+                         "mtest result of %s.ptest differs from the same problem assembled by the same PipeTest code in props/C53/driver.cxx and solved by our LU, by %.3g (relative)" % differs,
                          {"problem": pb, "element": ENAME[et], "ptest": open(os.path.join(wd, differs[0] + ".ptest")).read()}, True)
-    return nruns
+    return len(jobs)
+
+
+def cpu():
+    t = os.times()
+    return "cpu %.0fs" % (t.user + t.system + t.children_user + t.children_system)
+
+
+def prove(c, results):
+    """the proofs, in background threads (at most 3 coqc at a time here + the evaluations of the main thread)"""
+    r = c.coq(["C53SpecFE.v"], 900)
+    results.append(r)
+    if not r.ok:
+        return
+    pool = ThreadPoolExecutor(max_workers=3)
+
+    def chain_b():
+        rb = c.coq(["C53ProofsB.v"], 900)
+        if not rb.ok:
+            return [rb]
+        fc = pool.submit(c.coq, ["C53ProofsC.v", "Properties_C53_asm.v"], 900)
+        re_ = c.coq(["Properties_C53_elem.v"], 900)
+        return [rb, re_, fc.result()]
+    fa = pool.submit(c.coq, ["C53Spec.v", "C53ProofsA.v", "Properties_C53.v"], 900)
+    fb = pool.submit(chain_b)
+    results.append(fa.result())
+    results.extend(fb.result())
+    pool.shutdown()
+
+
+NTHEOREMS = 25      # Properties_C53.v 5 + Properties_C53_elem.v 13 + Properties_C53_asm.v 7
 
 
 def main(c):
-    drv = c.cxx("driver", ["driver.cxx"], libs=LIBS, link_repo_libs=True)
-    res = c.coq(["C53Spec.v", "C53Model.v", "C53ProofsA.v", "C53ProofsB.v", "Properties_C53.v"], timeout=900)
-    if not res.ok:
-        c.coq_failures(res, None)
-        if any(f[0] in ("C53Spec.v", "C53Model.v") for f in res.failed):
-            return
-    c.log('coq done')
-    gps = stage_consts(c, drv)
-    nsf = stage_sf(c, drv, gps)
-    c.log('sf done')
-    nel = stage_elem(c, drv, gps)
-    c.log('elem done')
-    pbs = problems(c)
-    orcs = [Oracle(c, pb) for pb in pbs]
-    c.log('oracle init done')
-    sol = stage_fe(c, drv, pbs, orcs)
-    c.log('fe done')
-    nm = 0
-    if vlib.REPO == "/repo":
-        nm = stage_mtest(c, pbs, orcs, sol)
-    else:
-        c.notes.append("VERIF_REPO is a scratch worktree: the mtest binary of /repo/_build is not built from it, mtest stage skipped")
-    c.coverage["traces_validated_against_impl"] = nsf + nel
+    drv = c.cxx("driver", ["driver.cxx"], repo_sources=REPO_SRC, libs=LIBS, link_repo_libs=True)
+    c.log('driver built', cpu())
+    gps = read_consts(c, drv)
+    gen = write_gen(c, gps)
+    stage_consts(c, gps)
+    # light files (no real numbers): compiled first, needed by every model evaluation and by the proofs
+    res0 = c.coq(LIGHT + [gen], timeout=900)
+    if not res0.ok:
+        c.coq_failures(res0, None)
+        return
+    c.log('light files compiled', cpu())
+    results = [res0]
+    bg = ThreadPoolExecutor(max_workers=1)
+    fut = bg.submit(prove, c, results)
+    try:
+        preps = [stage_sf(c, drv, gps), stage_elem(c, drv), stage_asm(c, drv)]
+        mods = coq_lists(c, [e for ev, _ in preps for e in ev])        # one coqc call for the three stages
+        counts, k = [], 0
+        for ev, finish in preps:
+            counts.append(finish(mods[k:k + len(ev)]))
+            k += len(ev)
+        nsf, nel, nas = counts
+        c.log('sf, elem, asm done', cpu())
+        nes = c.pick([1, 2, 4], [1, 2, 4, 8, 16])
+        pbs = problems(c)
+        orc = Oracles(c, pbs)
+        sol = stage_fe(c, drv, pbs, orc, nes)
+        c.log('fe done', cpu())
+        nm = 0
+        if vlib.REPO == "/repo":
+            nm = stage_mtest(c, pbs, orc, sol, nes)
+            c.log('mtest done', cpu())
+        else:
+            c.notes.append("VERIF_REPO is a scratch worktree: the mtest binary of /repo/_build is not built from it, mtest stage skipped "
+                           "(PipeTest.cxx of the worktree is exercised by the driver stages asm and fe)")
+    finally:
+        fut.result()
+        bg.shutdown()
+    c.log('coq done', cpu())
+    # the counters are updated by concurrent calls: set them from the results
+    c.coverage["obligations"] = sum(len(r.theorems) for r in results)
+    c.coverage["discharged"] = sum(len(r.discharged) for r in results)
+    c.coverage["checker_cmd"] = ("coqc -Q coq/lib VLib -R <scratch> C53 <files: C53Num.v C53Model.v C53_gen.v(generated) C53SpecFE.v C53Spec.v C53ProofsA.v "
+                                 "C53ProofsB.v C53ProofsC.v Properties_C53.v Properties_C53_elem.v Properties_C53_asm.v> (Coq 8.16.1, full .vo compilation)")
+    # property files that were not compiled because a file they depend on failed still count as obligations
+    c.coverage["obligations"] = max(c.coverage["obligations"], NTHEOREMS)
+    for r in results:
+        if not r.ok:
+            c.coq_failures(r, gauss_search(gps))
+    c.coverage["traces_validated_against_impl"] = nsf + nel + nas
     c.coverage["rule"] = (
-        "correspondence: quadrature constants (3 elements); shape functions at nodes, Gauss points and seeded dyadic abscissae; "
-        "computeStrain/updateStiffnessMatrixAndInnerForces on seeded elements (dyadic radii, displacements, non-symmetric 3x3 tangent) "
-        "against the Gallina model evaluated on Q, relative tolerance 1e-9..1e-12. "
-        "execution: %d seeded elastic pipe problems (radius ratio 1.12..2.5, E, nu, Pi, Pe, axial loading None/EndCapEffect) x 3 elements x "
-        "meshes %s through the element routines (driver fe) and through the real mtest binary (%d runs), error against the proved Lame "
-        "closed form evaluated on Q; distinct = (stage, problem, element) or (stage, input)" % (len(pbs), NES, nm))
-    c.trusted("hand-written Gallina model C53Model.v of the three pipe elements, tied to mtest/src/Pipe*Element.cxx by execution on seeded inputs only",
-              "props/C53/driver.cxx: stub linear behaviour, replication of PipeTest's pressure terms, dense LU (element stage); libTFELMTest.so of /repo/_build for CurrentState/StructureCurrentState",
-              "Python differ (tolerances), .ptest generator, parsing of mtest's .res/.prof output; g++, mfront-generated elastic behaviour VElas",
+        "correspondence: quadrature constants read from the compiled code (3 elements; moment conditions in exact arithmetic; the generated C53_gen.v is what the "
+        "Gauss/patch theorems are proved on); shape functions at nodes, Gauss points and seeded dyadic abscissae; computeStrain/updateStiffnessMatrixAndInnerForces on "
+        "seeded elements (dyadic radii, displacements, non-symmetric 3x3 tangent); residual and stiffness assembled by the REAL "
+        "PipeTest::computeStiffnessMatrixAndResidual (1..3 elements in quick, 1..5 in thorough; pressures, both axial loadings; stiffness through two seeded vectors, "
+        "symmetry for symmetric tangents, mesh-level patch test with the exact uniform-pressure Lame field) against the Gallina model evaluated on Q, relative "
+        "tolerance 1e-9..1e-12. execution: %d seeded elastic pipe problems (radius ratio 1.12..2.5, E, nu, Pi, Pe, axial loading None/EndCapEffect) x 3 elements x "
+        "meshes %s assembled by the real PipeTest (driver fe, our LU) and through the real mtest binary (%d runs), error against the proved Lame "
+        "closed form evaluated on Q: bound at every mesh, monotone decrease%s; distinct = (stage, problem, element) or (stage, input)" % (
+            len(pbs), nes, nm, ", observed rate 8->16 elements" if 16 in nes else " (rates: thorough tier only)"))
+    c.trusted("hand-written Gallina model C53Model.v of the three pipe elements and of PipeTest's small-strain assembly with imposed pressures, tied to "
+              "mtest/src/Pipe*Element.cxx and mtest/src/PipeTest.cxx by execution on seeded inputs only",
+              "props/C53/driver.cxx: stub linear behaviour, set-up of the PipeTest object through its public setters (behaviour pointer set directly), dense LU; "
+              "libTFELMTest.so of /repo/_build for everything but the sources listed in REPO_SRC and the three element sources",
+              "Python differ (tolerances), generator of C53_gen.v (exact rational value of the printed doubles), .ptest generator, parsing of mtest's .res/.prof "
+              "output; g++, mfront-generated elastic behaviour VElas",
               "uniqueness of the solution of the pipe boundary value problem is classical and NOT proved here (the oracle is proved to be a solution)")
     c.assumptions.append("IEEE rounding is not modelled: theorems are over R, code/model agreement is checked to 1e-9 relative")
     c.assumptions.append("convergence under refinement at the element's order is observed by execution, not proved")
